@@ -296,6 +296,21 @@ def h_eliminable_derivatives(eng):
         if v in recorded and k == "s":
             eng.prove("elimder.eliminated_state_takes_its_derivative_along", z3.BoolVal("der(%s)" % v in recorded), variable=v)
     eng.prove("elimder.no_pair_recorded_twice", z3.BoolVal(len(set(recorded)) == len(recorded)), recorded=recorded)
+    # the system stays self-contained: a symbol that a recorded value mentions is a variable the model keeps (a state, its derivative
+    # variable, an algebraic variable, the input, the parameter, time) or is itself recorded for substitution -- never a symbol that
+    # belongs to no variable list (C15)
+    def names_of(d):
+        out = set()
+        if isinstance(d, VDict):
+            for k_, v_ in zip(d.keys, d.vals):
+                sy_ = v_.fields.get("symbol") if isinstance(v_, VObj) else None
+                out.add(sy_.nm if isinstance(sy_, E) and sy_.kind == "sym" else str(k_))
+        return out
+    kept = {"u", "p", "time"} | set(recorded)
+    for loc in ("states", "der_states", "alg_states"):
+        kept |= names_of(fr.locals.get(loc))
+    free = sorted({sm.nm for vl in values if isinstance(vl, E) for sm in M.symbols_of(vl)} - kept)
+    eng.prove("elimder.recorded_values_mention_only_variables_of_the_model", z3.BoolVal(not free), symbols_of_no_variable=free)
 
 
 class FixedPattern(Ext):
